@@ -155,17 +155,25 @@ class Expr:
             raise RuntimeError(f"Serializing a {type(self)} object")
         return type(self), tuple(self.operands)
 
-    def _depth(self):
+    def _depth(self, cache: dict | None = None):
         """Depth of the expression tree
 
         Returns
         -------
         depth: int
         """
-        if not self.dependencies():
-            return 1
+        # Shared sub-expressions are only visited once
+        if cache is None:
+            cache = {}
+        elif self._name in cache:
+            return cache[self._name]
+        dependencies = self.dependencies()
+        if not dependencies:
+            depth = 1
         else:
-            return max(expr._depth() for expr in self.dependencies()) + 1
+            depth = max(expr._depth(cache) for expr in dependencies) + 1
+        cache[self._name] = depth
+        return depth
 
     def operand(self, key):
         # Access an operand unambiguously
@@ -229,7 +237,7 @@ class Expr:
 
         return {(self._name, i): self._task(i) for i in range(self.npartitions)}
 
-    def rewrite(self, kind: str):
+    def rewrite(self, kind: str, rewritten: dict | None = None):
         """Rewrite an expression
 
         This leverages the ``._{kind}_down`` and ``._{kind}_up``
@@ -242,6 +250,13 @@ class Expr:
         changed:
             whether or not any change occured
         """
+        # The rules only look at a node and its dependencies, so a node that
+        # is reachable along several paths only has to be rewritten once
+        if rewritten is None:
+            rewritten = {}
+        elif self._name in rewritten:
+            return rewritten[self._name]
+
         expr = self
         down_name = f"_{kind}_down"
         up_name = f"_{kind}_up"
@@ -278,7 +293,7 @@ class Expr:
             changed = False
             for operand in expr.operands:
                 if isinstance(operand, Expr):
-                    new = operand.rewrite(kind=kind)
+                    new = operand.rewrite(kind=kind, rewritten=rewritten)
                     if new._name != operand._name:
                         changed = True
                 else:
@@ -291,6 +306,7 @@ class Expr:
             else:
                 break
 
+        rewritten[self._name] = expr
         return expr
 
     def simplify_once(self, dependents: defaultdict, simplified: dict):
@@ -386,7 +402,14 @@ class Expr:
     def _simplify_up(self, parent, dependents):
         return
 
-    def lower_once(self):
+    def lower_once(self, lowered: dict | None = None):
+        # ``_lower`` only depends on the node itself, so a node that is
+        # reachable along several paths only has to be lowered once
+        if lowered is None:
+            lowered = {}
+        elif self._name in lowered:
+            return lowered[self._name]
+
         expr = self
 
         # Lower this node
@@ -401,7 +424,7 @@ class Expr:
         changed = False
         for operand in out.operands:
             if isinstance(operand, Expr):
-                new = operand.lower_once()
+                new = operand.lower_once(lowered)
                 if new._name != operand._name:
                     changed = True
             else:
@@ -411,6 +434,7 @@ class Expr:
         if changed:
             out = type(out)(*new_operands)
 
+        lowered[self._name] = out
         return out
 
     def lower_completely(self) -> Expr:
